@@ -160,6 +160,9 @@ def run_case(desc):
     w = None
     if desc["weights"]:
         w = np.round(rng.rand(*y.shape) + 0.2, 2)
+        if (desc["seed"] >> 6) % 4 == 0:
+            # all labelled samples carry one and the same weight (not 1): the weights of the unlabelled ones still vary
+            w[rowlab] = float(rng.choice([0.5, 2.0, 3.0]))
     Q = np.vstack([X, np.round(rng.randn(5, d), 3)])
     variants = {}
     variants["all"] = (X, y, w)
